@@ -296,6 +296,17 @@ ApiModel buildApiModel(uint64_t seed, int variant, const ApiOpts* optsIn) {
 			nif.AssignExtraData(nif.GetRootNode(), std::move(bsx));
 		}
 	}
+	if (o.portedTangentBlock && !ver.IsOB()) {
+		for (auto& name : M.shapeNames)
+			if (auto sh = nif.FindBlockByName<NiShape>(name)) {
+				auto bed = std::make_unique<NiBinaryExtraData>();
+				bed->name.get() = "Tangent space (binormal & tangent vectors)";
+				bed->data.resize((size_t)sh->GetNumVertices() * 24);
+				for (size_t i = 0; i < bed->data.size(); i++) bed->data[i] = (uint8_t)(i * 7 + 3);
+				nif.AssignExtraData(sh, std::move(bed));
+			}
+		desc << " +ported tangent block";
+	}
 	if (o.tangents) {
 		for (auto& name : M.shapeNames)
 			if (auto sh = nif.FindBlockByName<NiShape>(name))
@@ -473,7 +484,7 @@ std::string applyRandomEdits(NifFile& nif, Rng& rng, int n) {
 	auto& hdr = nif.GetHeader();
 	for (int k = 0; k < n; k++) {
 		auto shapes = nif.GetShapes();
-		int op = (int)rng.below(14);
+		int op = (int)rng.below(15);
 		switch (op) {
 			case 0:
 				if (!shapes.empty()) {
@@ -562,6 +573,16 @@ std::string applyRandomEdits(NifFile& nif, Rng& rng, int n) {
 				break;
 			case 9: log += "deleteUnreferenced;"; nif.DeleteUnreferencedBlocks(); break;
 			case 10: log += "prettySort;"; nif.PrettySortBlocks(); break;
+			case 14:
+				// per-vertex eye data (BSTriShape family; a BSDynamicTriShape recomputes it from the positions when it is saved)
+				for (auto s : shapes)
+					if (auto bs = dynamic_cast<BSTriShape*>(s)) {
+						std::vector<float> eye(bs->GetNumVertices());
+						for (auto& e : eye) e = rng.range(-1, 1);
+						if (!eye.empty()) { NifFile::SetEyeDataForShape(s, eye); log += "setEyeData(" + s->name.get() + ");"; }
+						break;
+					}
+				break;
 			case 12:
 			case 13: {
 				// detach: clear one non-empty owning reference of a random block; whatever hung below it becomes a loose sub-graph
